@@ -45,6 +45,7 @@ type param struct {
 	Choices []int    `json:"choices,omitempty"`
 	Mode    string   `json:"mode,omitempty"`
 	Bound   int      `json:"bound,omitempty"`
+	Policy  int      `json:"policy"`
 }
 
 func dna(n int, seed int) []byte {
@@ -339,7 +340,7 @@ func TestVerifC05(t *testing.T) {
 		prepare(p)
 		vsched.PoolChoices = true
 		found := 0
-		cfg := vsched.Config{Name: p.Scn, Preemptions: p.Bound, Deviations: 1, DelayBounding: true, Horizon: 20000, MaxExec: 200000}
+		cfg := vsched.Config{Name: p.Scn, Preemptions: p.Bound, Deviations: 1, DelayBounding: true, Horizon: 20000, MaxExec: 200000, Policy: p.Policy}
 		cfg.Check = func(x *vsched.Exec) string {
 			if s, _ := x.Obs.(string); x.Outcome() != "" || s != ref {
 				found++
@@ -382,16 +383,19 @@ func TestVerifC05(t *testing.T) {
 			for _, b := range bs {
 				p := sc
 				p.Workers, p.Batch = w, b
-				if verifkit.Thorough() {
-					jobs = append(jobs, job{p, 2, 1, 150000})
-				} else {
-					jobs = append(jobs, job{p, 1, 1, 40000})
+				for pol := 0; pol <= 1; pol++ {
+					p.Policy = pol
+					if verifkit.Thorough() {
+						jobs = append(jobs, job{p, 2, 1, 150000})
+					} else {
+						jobs = append(jobs, job{p, 1, 1, 40000})
+					}
 				}
 			}
 		}
 	}
 	r.Bound("jobs", len(jobs))
-	r.Bound("exploration", "delay bounding (quick 1, thorough 2 deviations from the default scheduler) + at most 1 non-default pool answer, happens-before state caching, L2 conflict sites to fixpoint")
+	r.Bound("exploration", "delay bounding (quick 1, thorough 2 deviations) from two default schedulers (lowest-id-first and newest-thread-first) + at most 1 non-default pool answer, happens-before state caching, L2 conflict sites to fixpoint")
 	for k, j := range jobs {
 		if r.Expired() {
 			break
@@ -409,7 +413,7 @@ func TestVerifC05(t *testing.T) {
 		prepare(p)
 		vsched.PoolChoices = true
 		cfg := vsched.Config{Name: p.Scn, Preemptions: j.bound, Deviations: j.dev, DelayBounding: true, Horizon: 20000,
-			MaxExec: j.max, Expired: r.Expired}
+			MaxExec: j.max, Expired: r.Expired, Policy: p.Policy}
 		cfg.Check = func(x *vsched.Exec) string {
 			if x.Outcome() != "" {
 				return x.Outcome() + "|" + x.Detail()
